@@ -60,6 +60,53 @@ theorem startup_writes_all_written (env : Env) (hn : NoTakes env) (σ : PollStat
     (writeInit env σ i []).evs.map evKey = (σ.pending i).map (fun p => (i, Fn.write p)) := by
   simpa using writeInit_calls_exact env hn σ i hnd []
 
+/-- what module initialisation enters into `writeDict`: exactly the parameters with a given value, each once -/
+theorem givenIdx_mem (gs : List Bool) : ∀ (i p : Nat), p ∈ givenIdx i gs ↔ i ≤ p ∧ gs[p - i]? = some true := by
+  induction gs with
+  | nil => intro i p; simp [givenIdx]
+  | cons g gs ih =>
+    intro i p
+    simp only [givenIdx, List.mem_append, ih]
+    constructor
+    · rintro (h | ⟨h1, h2⟩)
+      · cases g
+        · simp at h
+        · simp only [if_true, List.mem_singleton] at h; subst h; simp
+      · refine ⟨by omega, ?_⟩
+        have : p - i = (p - (i + 1)) + 1 := by omega
+        rw [this, List.getElem?_cons_succ]; exact h2
+    · rintro ⟨h1, h2⟩
+      by_cases hp : p = i
+      · subst hp
+        simp only [Nat.sub_self, List.getElem?_cons_zero, Option.some.injEq] at h2
+        subst h2; exact Or.inl (by simp)
+      · have : p - i = (p - (i + 1)) + 1 := by omega
+        rw [this, List.getElem?_cons_succ] at h2
+        exact Or.inr ⟨by omega, h2⟩
+
+theorem givenIdx_nodup (gs : List Bool) : ∀ i, (givenIdx i gs).Nodup := by
+  induction gs with
+  | nil => intro i; simp [givenIdx]
+  | cons g gs ih =>
+    intro i
+    simp only [givenIdx]
+    refine List.nodup_append.2 ⟨by cases g <;> simp, ih (i + 1), ?_⟩
+    intro a ha b hb
+    have hb' := ((givenIdx_mem gs (i + 1) b).1 hb).1
+    cases g
+    · simp at ha
+    · simp only [if_true, List.mem_singleton] at ha; omega
+
+/-- **start_values_written_once.**  A thread started with the `writeDict`s module initialisation leaves (`givenIdx`: the
+parameters whose value is given, in parameter order), in an environment without common write handlers: the first
+`writeInitParams` of module `i` calls the write function of every given start value, in parameter order, each exactly
+once (and nothing else — `startup_writes_call_no_read`). -/
+theorem start_values_written_once (env : Env) (hn : NoTakes env) (clock : Nat) (mods : List Mod) (stamp : Nat → Nat → Nat)
+    (given : Nat → List Bool) (i : Nat) :
+    (writeInit env (startState clock mods stamp (fun m => givenIdx 0 (given m))) i []).evs.map evKey =
+      (givenIdx 0 (given i)).map (fun p => (i, Fn.write p)) :=
+  startup_writes_all_written env hn _ i (givenIdx_nodup _ 0)
+
 /-- the table fact the model's `writeParams` rests on (re-extracted from the source of `Module.writeInitParams` on every
 run): the only methods of the module it looks up are `write_<pname>`, and it calls no method of the module directly —
 no `read_<pname>` is reached from there -/
@@ -828,6 +875,11 @@ example : (writeInit exEnv exState 2 []).evs.map evKey = [(2, .write 0), (2, .wr
     readsOf (thread exConsts exEnv 30 exState).evs 0 3 = [] :=
   ⟨startup_writes_all_written exEnv (fun _ => rfl) exState 2 (by decide), (startup_writes_call_no_read exEnv exEnv.out exState 2).2.2.2.1,
    (startup_writes_call_no_read exEnv exEnv.out exState 2).2.2.2.2.2 0 (by decide), by decide +kernel⟩
+
+/-- `start_values_written_once`: parameters 1 and 3 of module 0 are given -/
+example : (writeInit exEnv (startState 1000 exState.mods (fun _ _ => 0) (fun m => givenIdx 0 (if m = 0 then [false, true, false, true] else []))) 0 []).evs.map evKey =
+    [(0, .write 1), (0, .write 3)] :=
+  start_values_written_once exEnv (fun _ => rfl) 1000 exState.mods (fun _ _ => 0) (fun m => if m = 0 then [false, true, false, true] else []) 0
 
 /-- a common write handler: the write function of parameter 0 of the module that is only written also takes parameter 4
 out of `writeDict` (it has written both): `writeInitParams` then passes parameter 4 over — one call, nothing left -/
